@@ -49,6 +49,10 @@ def check_float_to_time(ctx: Ctx, r: Rule, T: Timing) -> None:
     seen = set()
     for q in sorted(cg.funcs):
         f = cg.funcs[q]
+        callers_ = cg.callers_of(q)
+        if f.name.startswith("_") and not f.name.startswith("__") and callers_ and \
+                all(e.rec is not None and e.rec.inlined for e in callers_):
+            continue  # a private helper inlined at every call site: its conversions are examined there, with their actual arguments
         s = cg.summary(f)
         for c in s.calls:
             if c.fn != TIMEDELTA:
